@@ -266,11 +266,13 @@ def preseed : St → List (Nat × PreTarget) → Except Err St
         let (h1, j) := newTaxon s.h lab
         preseed ⟨h1, (i, j) :: s.m⟩ r
 
-/-- a whole copy route: pre-seed, then `copy.deepcopy(root, memo)` with fuel = number of objects + 1 -/
+/-- a whole copy route: pre-seed, then `copy.deepcopy(root, memo)` with fuel `2 * number of objects + 1` (sufficient on every
+well-formed heap: `copy_total`; an object on the recursion stack is a distinct source object, and an annotation set may be entered
+once more before it is memoised) -/
 def copyRoute (h : Heap) (pre : List (Nat × PreTarget)) (root : Val) : Except Err (St × Val) :=
   match preseed ⟨h, []⟩ pre with
   | .error e => .error e
-  | .ok s0 => cpVal (h.size + 1) s0 root
+  | .ok s0 => cpVal (2 * h.size + 1) s0 root
 
 /-! ### `Node.extract_subtree` without a node filter (thin structural clone) -/
 
